@@ -525,7 +525,8 @@ func (e *Env) locOf(x *CE) loc {
 		}
 		fail("assigns %s: no such field", x)
 	case "ident":
-		if so, ok := g.Specs.GhostVar[x.Name]; ok {
+		if gt, ok := g.Specs.GhostVar[x.Name]; ok {
+			_, so := g.resolveType(gt)
 			g.declHeap("ghost."+x.Name, so)
 			return loc{heap: "ghost." + x.Name}
 		}
@@ -615,11 +616,18 @@ func (f *frame) applyContract(fs *FuncSpec, actuals []CV, res *types.Tuple, st *
 	if fs.Trusted != "" {
 		g.trustedUse[fs.Key] = true
 	}
+	if fs.Kind == "iface" || fs.Kind == "functype" {
+		g.ifaceUse[fs.Key] = true
+	}
 	// frame: explicit locations are havocked, everything else (existing objects) is kept
 	byHeap := map[string][]loc{}
 	for _, a := range asg {
 		l := envPre.locOf(a)
 		byHeap[l.heap] = append(byHeap[l.heap], l)
+		if strings.HasPrefix(l.heap, "Mh.") {
+			mv := "Mv." + strings.TrimPrefix(l.heap, "Mh.")
+			byHeap[mv] = append(byHeap[mv], loc{heap: mv, ref: l.ref, all: l.all})
+		}
 	}
 	for _, h := range sortedKeys(byHeap) {
 		hv := g.hv(st, h)
